@@ -4,7 +4,7 @@ package commonmark
 
 // C17 — tag filtering only escapes '<' and leaves no filtered element openable.
 
-const hX = "\xfe<>!-?/[]xmpXMP \n\"=\xfe" // one byte from the HTML alphabet
+const hX = "\xfe<>!-?/[]xmpXMP \n\r\f\t\"=\xfe" // one byte from the HTML alphabet
 
 var c17Templates = []string{
 	"<" + hX + hX + hX,               // 0
@@ -24,6 +24,11 @@ var c17Templates = []string{
 	"a <" + hX + hX + hX + hX + ">",  // 14 (thorough)
 	"<xmp" + hX + hX + hX + hX,       // 15 (thorough)
 	"<!" + hX + hX + hX + hX + hX,    // 16 (thorough)
+	"a <?" + hX + "<xmp>?>",          // 17 inline processing instruction containing a tag
+	"a <![CDATA[" + hX + "<xmp>]]>",  // 18 inline CDATA section containing a tag
+	"<div>\n<" + hX + "<xmp>",        // 19 stray '<' / tag start directly before a tag in an HTML block
+	"<div><xmp" + hX + "a>",          // 20 byte that ends (or does not end) a tag name
+	"> a <?" + hX + "\n> <xmp>?>",    // 21 multi-line inline raw HTML inside a container
 }
 
 func filterXXmpScript(tag []byte) bool {
@@ -33,7 +38,9 @@ func filterXXmpScript(tag []byte) bool {
 
 var c17Preds = []func([]byte) bool{FilterTagGFM, rejectAll, filterNever, filterXmp, filterXXmpScript}
 
-func isSpaceHTML(c byte) bool { return c == '\t' || c == '\n' || c == '\f' || c == ' ' }
+// isSpaceHTML: TAB, LF, FF, SPACE, and CR (the HTML input-stream preprocessing turns
+// CR and CRLF into LF before the tokenizer sees them).
+func isSpaceHTML(c byte) bool { return c == '\t' || c == '\n' || c == '\r' || c == '\f' || c == ' ' }
 
 // htmlTagEnd: from the start of a tag name, the index just after the '>' that ends
 // the tag, honouring quoted attribute values (WHATWG attribute states); -1 at EOF.
